@@ -971,8 +971,8 @@ impl Scenario for C11 {
     }
     fn default_runs(tier: Tier) -> u64 {
         match tier {
-            Tier::Quick => 60_000,
-            Tier::Thorough => 3_000_000,
+            Tier::Quick => 400_000,
+            Tier::Thorough => 15_000_000,
         }
     }
     fn gen(rng: &mut Rng, _tier: Tier, run: u64) -> C11Trace {
